@@ -1,6 +1,8 @@
 package eval
 
 import (
+	"reflect"
+
 	"src.elv.sh/pkg/eval/errs"
 	"src.elv.sh/pkg/eval/vals"
 )
@@ -24,11 +26,31 @@ func not(v any) bool {
 
 func is(args ...any) bool {
 	for i := 0; i+1 < len(args); i++ {
-		if args[i] != args[i+1] {
+		if !identical(args[i], args[i+1]) {
 			return false
 		}
 	}
 	return true
+}
+
+// identical reports whether a and b have the same identity. Values whose
+// dynamic type is not comparable (such as styled text, which is a slice) cannot
+// be compared with ==; they are identical only if they are the same object.
+func identical(a, b any) bool {
+	va, vb := reflect.ValueOf(a), reflect.ValueOf(b)
+	if va.IsValid() && vb.IsValid() && !(va.Comparable() && vb.Comparable()) {
+		if va.Type() != vb.Type() {
+			return false
+		}
+		switch va.Kind() {
+		case reflect.Slice:
+			return va.Len() == vb.Len() && va.Pointer() == vb.Pointer()
+		case reflect.Map, reflect.Func:
+			return va.Pointer() == vb.Pointer()
+		}
+		return false
+	}
+	return a == b
 }
 
 func eq(args ...any) bool {
